@@ -541,6 +541,14 @@ def check_C09(ctx):
                 d0 = r.choice(days)
                 c[r.choice(["g_end", "g_begin"])] = "%04d/%02d/%02d" % d0
             cases.append(c)
+    # malformed lines that hold characters with a meaning for a formatter (%, %d, %s, %!): the line is quoted as it stands
+    for bl, msg in ((b"  fat 3.5%", None), (b"  100%: x%d", None), (b"  %s%s%s", None), (b"  a%20b: 1.2.3", None), (b"  50%!: y", None)):
+        logb2 = b"2021/01/01:\n  bread: 2\n" + bl + b"\n  tea: 1\n"
+        mm2 = run.run_pub(ctx.impl, [run.req(op="parse", data=logb2)])[0].split(b"\n")
+        e2 = [bytes.fromhex(l[2:].decode()) for l in mm2 if l.startswith(b"E ")]
+        if not e2: continue
+        for cmd in ("reg", "print", "csv-log", "bal", "stats"):
+            c = dict(files={"food.yaml": good_book, "log.yaml": logb2}, cmd=cmd, f_today="2021/02/01", **NOCOLOR); c["_first"] = e2[0]; cases.append(c)
     firsts = [c.pop("_first") for c in cases]
     ires = cli_diff(ctx, cases, project=ws_norm, tag="C09:cmd:")
     for c, first, i in zip(cases, firsts, ires):
